@@ -1,6 +1,6 @@
 SPECIFICATION Spec
 CONSTANTS
-  N = 6
+  N = 5
 INVARIANT StepRefines
 INVARIANT RunAgrees
 INVARIANT SiteValid
